@@ -31,6 +31,7 @@ BLOCKS = {
                        1.0, ['x'], ['G']),
     'two-exogenous':  ("x = 0.5*x + G - H\nd = x + H\nErr_Tolerance = 0.01\nMaxTime = 2\nexogenous\nG = [1., 2., 3.]\nH = [0.5, 0.5, 0.5]", 1.0, ['x'], ['G', 'H']),
     'time-in-eq':     ("x = 0.5*x + t\nErr_Tolerance = 0.01\nMaxTime = 2", 1.0, ['x'], []),
+    'static-user-time': ("x = 0.5*y + c\ny = 0.5*x + 1\nc = 2.0\nt = 2016.\nErr_Tolerance = 0.01\nMaxTime = 2", 0.5, ['x', 'y'], []),
 }
 
 
